@@ -5,6 +5,18 @@ ROOT = os.path.dirname(os.path.dirname(os.path.abspath(__file__)))
 ALL = ["C%02d" % i for i in range(1, 18)]
 TIE = " Tied to /repo on every run by a differential correspondence (implementation built from the working tree vs the executable Lean model, generated inputs from VERIF_SEED, shrinking, property-oracle search on disagreement)."
 CLAIMS = {
+ "C02": ("Lean 4 theorems over the handle model (fileStep): EOF beyond the end, zero-filled gaps, O_APPEND at the current end, access-mode enforcement, closed handles have no effect, a handle survives removal of its name, handles share the inode, directory batches deliver each entry once then EOF — for all contents, offsets and sizes.",
+         "Per-operation theorems, not yet a refinement of whole histories; the os.File side is an oracle run (tmpfs) with recorded divergence classes (known_findings.jsonl).",
+         "Lean 4 proof (case analysis / induction on batches) + differential correspondence with impl and os.File", "§3 C02"),
+ "C03": ("Lean 4 theorems: checkPermission equals Linux DAC class selection for all modes/owners/users (not by enumeration of trees), creation formula perm &^ umask with caller's uid/gid, owner-only chmod, administrator never refused, chown restricted.",
+         "Kernel-side oracle under setfsuid not wired in yet; sticky/setgid semantics not covered.",
+         "Lean 4 proof (bit-level case analysis) + differential correspondence with non-admin users", "§3 C03"),
+ "C09": ("Shape tables of every RoFS / RoFile method are REGENERATED from the Go source on every run (factx) and the kernel re-decides that each is a permission-class refusal, a forward to a tree-preserving base method with identical arguments, the O_RDONLY-guarded OpenFile or the re-wrapped Sub; a generic Lean theorem lifts this to all histories of any length.",
+         "The translator is trusted (syntactic, fails closed); behaviour is cross-checked by base-graph snapshots (incl. mtimes) around every call through RoFS, its files and its Sub results.",
+         "Lean 4 proof over regenerated tables (decide +kernel, generic induction over histories) + snapshot differential", "§3 C09"),
+ "C12": ("Shape tables of every FailFS / FailFile method regenerated on every run; kernel-decided: each base-reaching method consults the failure function with its own id before an identical-argument forward, hands out wrapped files / file systems, composites run over the wrapper; generic Lean theorems: transparent when the function never fails, an injected error is returned as is with the base state untouched.",
+         "Composite behaviour under faults is enumerated (every single-fault plan per history), not proved; three swallowed-failure cases are recorded findings.",
+         "Lean 4 proof over regenerated tables + exhaustive single-fault enumeration per history against a twin base", "§3 C12"),
  "C13": ("Lean 4 theorems about a byte-for-byte transliteration of the generic path code (Clean with its lazybuf, Join, Split, Dir, Base, IsAbs, Abs, Match no-panic, PathIterator laws) for ALL byte strings; Linux functions proved equal to a component-based reference that is itself compared with the toolchain's path/filepath on every run; both OS types run against the implementation built with avfs_setostype.",
          "Windows: executable model + correspondence only (no Windows oracle in the run, theorems limited); Match/Rel equalities not yet proved (evidence.not_yet_proved).",
          "Lean 4 proof (structural / well-founded induction over byte strings) + differential correspondence", "§3 C13"),
